@@ -695,3 +695,79 @@ case("c12-refactor-rename-state-var", "C12", "refactor", [("src/stabilize/events
 """, """                state = self._load_state_from_snapshot(snapshot)
                 start_sequence = int(snapshot.sequence)
 """)])
+
+# ---- C15 additions (seed-derived)
+case("c15-refactor-resolve-helper", "C15", "refactor", [(H + "jump_to_stage/handler.py", """
+        jump_count = source_stage.context.get("_jump_count", 0)
+        # Use explicit None checks to allow max_jumps=0 (disables jumps)
+        max_jumps = execution.context.get("_max_jumps")
+        if max_jumps is None:
+            max_jumps = source_stage.context.get("_max_jumps")
+        if max_jumps is None:
+            max_jumps = DEFAULT_MAX_JUMPS
+""", """
+        jump_count = source_stage.context.get("_jump_count", 0)
+        max_jumps = self._resolve_max_jumps(execution, source_stage)
+"""), (H + "jump_to_stage/handler.py", """    def _check_jump_count(
+""", """    @staticmethod
+    def _resolve_max_jumps(execution, source_stage):
+        limit = execution.context.get("_max_jumps")
+        if limit is None:
+            limit = source_stage.context.get("_max_jumps")
+        if limit is None:
+            limit = DEFAULT_MAX_JUMPS
+        return int(limit)
+
+    def _check_jump_count(
+""")])
+case("c15-helper-falsy-fallback", "C15", "mutant", [(H + "jump_to_stage/handler.py", """
+        jump_count = source_stage.context.get("_jump_count", 0)
+        # Use explicit None checks to allow max_jumps=0 (disables jumps)
+        max_jumps = execution.context.get("_max_jumps")
+        if max_jumps is None:
+            max_jumps = source_stage.context.get("_max_jumps")
+        if max_jumps is None:
+            max_jumps = DEFAULT_MAX_JUMPS
+""", """
+        jump_count = source_stage.context.get("_jump_count", 0)
+        max_jumps = execution.context.get("_max_jumps") or source_stage.context.get("_max_jumps") or DEFAULT_MAX_JUMPS
+""")], "C15.R2")
+case("c15-single-sweep", "C15", "mutant", [("src/stabilize/handlers/jump_to_stage/traversal.py", """    resettable_stages: list[StageExecution] = []
+
+    changed = True
+    while changed:
+        changed = False
+""", """    resettable_stages: list[StageExecution] = []
+
+    changed = True
+    if changed:
+        changed = False
+""")], "C15.R5")
+
+# ---------------------------------------------------------------- C10
+REC_ = "src/stabilize/recovery.py"
+case("c10-starttask-guard-dropped", "C10", "mutant", [(REC_, """                    if not self.queue.has_pending_message_for_task(first_task.id):
+                        recovery_messages.append(""", """                    if first_task.id:
+                        recovery_messages.append(""")], "C10.R2")
+case("c10-runtask-guard-on-other-task", "C10", "mutant", [(REC_, """                        if self.queue.has_pending_message_for_task(task.id):""", """                        if self.queue.has_pending_message_for_task(stage.id):""")], "C10.R2")
+case("c10-pending-ignores-locked", "C10", "mutant", [("src/stabilize/queue/sqlite/queue.py", """            WHERE json_extract(payload, '$.task_id') = :task_id
+            LIMIT 1""", """            WHERE json_extract(payload, '$.task_id') = :task_id
+              AND locked_until IS NULL
+            LIMIT 1""")], "C10.R3")
+case("c10-push-outside-transaction", "C10", "mutant", [(REC_, """            with self.store.transaction(self.queue) as txn:
+                for msg in recovery_messages:
+                    txn.push_message(msg)
+""", """            for msg in recovery_messages:
+                self.queue.push(msg)
+""")], "C10.R4")
+case("c10-sweep-writes-status", "C10", "mutant", [(REC_, """            if stage.status == WorkflowStatus.RUNNING:
+                stages_to_requeue.append(stage)
+""", """            if stage.status == WorkflowStatus.RUNNING:
+                stages_to_requeue.append(stage)
+                if not stage.tasks:
+                    stage.status = WorkflowStatus.NOT_STARTED
+                    self.store.store_stage(stage)
+""")], "C10.R1")
+case("c10-refactor-rename-first-task", "C10", "refactor", [(REC_, """                    first_task = not_started_tasks[0]""", """                    nxt_task = not_started_tasks[0]"""),
+     (REC_, """                    if not self.queue.has_pending_message_for_task(first_task.id):""", """                    if not self.queue.has_pending_message_for_task(nxt_task.id):"""),
+     (REC_, """                                task_id=first_task.id,""", """                                task_id=nxt_task.id,""")])
